@@ -82,7 +82,11 @@ def gen_cases(tier, seed):
             s = rand_ident(rnd)
             if valid_ident(s) and len(s) < 12:
                 names.add(s)
+            elif rnd.random() < 0.15:
+                names.add(rnd.choice(["r#match", "r#type", "r#a1", "r#B", "r#fn", "r#x10", "r#x9"]))
         names = sorted(names)
+        if form in ("mod", "extern") and any(x in ("r#match", "r#type", "r#fn") for x in names) and form == "extern":
+            names = [x for x in names if not x.startswith("r#")] or ["a1", "a2"]
         if form == "mod":
             decls = ["mod %s;" % x for x in names]
         elif form == "extern":
